@@ -145,7 +145,9 @@ fn tails(n: usize, positive: bool) -> Vec<(String, Vec<f64>)> {
 
 fn adversarial(spec: &Spec, pdepth: usize, st: &mut Stats, sink: &Sink) {
     let positive = positive_only(spec);
-    let alpha: Vec<f64> = if positive { F5P.to_vec() } else { F7.to_vec() };
+    let mut alpha: Vec<f64> = if positive { F5P.to_vec() } else { F7.to_vec() };
+    // "any dynamic range": two letters far above the rest (eight decades in all)
+    alpha.extend([1e5, 1e8]);
     let tl = tails(spec.n.max(1), positive);
     let root = match guard(|| S { v: build::<f64>(spec), prev: None, recent: vec![] }) {
         Ok(r) => r,
@@ -358,7 +360,7 @@ pub fn specs_no_n() -> Vec<Spec> {
 pub fn run(ctx: &Ctx) -> CheckOutput {
     let quick = ctx.tier == Tier::Quick;
     let ns: Vec<usize> = if quick { vec![2, 3, 4, 5, 7, 8, 12] } else { vec![2, 3, 4, 5, 6, 7, 8, 9, 10, 12, 16, 24] };
-    let pdepth = if quick { 5 } else { 6 };
+    let pdepth = if quick { 4 } else { 5 };
     let cap = if quick { 20_000 } else { 500_000 };
     let mut jobs: Vec<Job> = vec![];
     let mut all: Vec<Spec> = specs_no_n();
@@ -390,7 +392,7 @@ pub fn run(ctx: &Ctx) -> CheckOutput {
         stats: o.stats,
         violations: o.viols,
         samples: o.samples,
-        rule: "every view of the statement x N: (a) CLOSURE over Z3; (b) every volatile prefix over F7 (three decades, both signs, one 1000.7 spike letter) up to the stated depth, each followed by 12 tails (six flat values, rising/falling ramps, step up/down, linear, dyadic-linear) of length N+2; the bound checked at every step with 8 ulps of slack; lockstep product Min/Max/Sma/Alma/newest".into(),
+        rule: "every view of the statement x N: (a) CLOSURE over Z3; (b) every volatile prefix over F7 + {1e5, 1e8} (eight decades, both signs) up to the stated depth, each followed by 12 tails (six flat values, rising/falling ramps, step up/down, linear, dyadic-linear) of length N+2; the bound checked at every step with 8 ulps of slack; lockstep product Min/Max/Sma/Alma/newest".into(),
         assumptions: vec!["inputs are the F7 letters and the listed tails; positive letters only for Drawdown and CenterOfGravity".into()],
         exhaustive: true,
         bounds: json!({"N": ns, "prefix_depth": pdepth, "closure_cap": cap}),
